@@ -128,6 +128,13 @@ def check_locks(ctx: Ctx):
 
 def check(ctx: Ctx):
     check_locks(ctx)
+    # "rows carry the values a sequential run would produce": the objects shared by the threads of
+    # one aggregator (evaluator, approximator, matcher) keep no per-call state (R15.6, R05.5, R15.7)
+    from . import c03, c05, c15
+
+    c03._guarded(ctx, "R15.6", c15.check_state_writers)
+    c03._guarded(ctx, "R05.5", c05.check_stateless)
+    c03._guarded(ctx, "R15.7", c15.check_globals)
 
 
 _A = "panoptica/panoptica_aggregator.py"
